@@ -35,6 +35,7 @@ fn main() {
             "runfail" => run::runfail(&fields[1..]),
             "rung" => run::rung(&fields[1..]),
             "compilebc" => run::compilebc(&fields[1..]),
+            "runbcmem" => run::runbcmem(&fields[1..]),
             "det" => run::det(&fields[1..]),
             "reuse" => run::reuse(&fields[1..]),
             "timecreate" => run::timecreate(&fields[1..]),
